@@ -149,11 +149,11 @@ func TestC07(t *testing.T) {
 				if amt.IsZero() {
 					continue
 				}
-				msg = &vestingtypes.MsgSplitVesting{FromAddress: from.String(), ToAddress: to.String(), Amount: amt}
+				msg = &vestingtypes.MsgSplitVesting{FromAddress: Spell(t, l+"_fromSp", from), ToAddress: Spell(t, l+"_toSp", to), Amount: amt}
 				want = amt
 				mustAccept = true
 			case kind == 4:
-				msg = &vestingtypes.MsgMoveAvailableVesting{FromAddress: from.String(), ToAddress: to.String()}
+				msg = &vestingtypes.MsgMoveAvailableVesting{FromAddress: Spell(t, l+"_fromSp", from), ToAddress: Spell(t, l+"_toSp", to)}
 				want = locked
 				mustAccept = !locked.IsZero()
 			default:
@@ -184,7 +184,7 @@ func TestC07(t *testing.T) {
 						classes["denoms_listed_unsorted"] = true
 					}
 				}
-				msg = &vestingtypes.MsgMoveAvailableVestingByDenoms{FromAddress: from.String(), ToAddress: to.String(), Denoms: ds}
+				msg = &vestingtypes.MsgMoveAvailableVestingByDenoms{FromAddress: Spell(t, l+"_fromSp", from), ToAddress: Spell(t, l+"_toSp", to), Denoms: ds}
 				want = sel
 				mustAccept = true
 			}
